@@ -66,3 +66,118 @@ pub fn int_inputs(seed: u64) -> impl Iterator<Item = Value> {
     }
     out.into_iter()
 }
+
+// ---------------------------------------------------------------- enums (bounded stand-in)
+#[derive(async_graphql::Enum, Copy, Clone, Eq, PartialEq, Debug)]
+enum Color { Red, Green, #[graphql(name = "DEEP_BLUE")] Blue }
+#[derive(async_graphql::Enum, Copy, Clone, Eq, PartialEq, Debug)]
+#[graphql(rename_items = "lowercase")]
+enum Unit { #[graphql(name = "mb")] Millibit, #[graphql(name = "MB")] Megabyte, Kb }
+
+fn enum_check<T: async_graphql::resolver_utils::EnumType + async_graphql::InputType + std::fmt::Debug>(v: &GqlValue, names: &[(&str, T)]) -> Outcome {
+    let got = async_graphql::resolver_utils::parse_enum::<T>(v.clone());
+    let key = match v { GqlValue::Enum(n) => Some(n.to_string()), GqlValue::String(s) => Some(s.clone()), _ => None };
+    let exp = key.and_then(|k| names.iter().find(|(n, _)| *n == k).map(|(_, x)| *x));
+    let mut holds = got.as_ref().ok().copied() == exp;
+    let mut obs = format!("parse_enum({}) = {:?}", v, got.as_ref().map_err(|_| "Err"));
+    for (n, x) in names {   // round trip + to_value names
+        let tv = async_graphql::resolver_utils::enum_value(*x);
+        if tv != GqlValue::Enum(async_graphql::Name::new(*n)) { holds = false; obs += &format!("; enum_value({:?}) = {}", x, tv); }
+        let back = async_graphql::resolver_utils::parse_enum::<T>(tv);
+        if back.as_ref().ok().copied() != Some(*x) { holds = false; obs += &format!("; parse(to_value({:?})) = {:?}", x, back.map_err(|_| "Err")); }
+    }
+    Outcome { holds, observed: obs, expected: format!("{:?} (Ok exactly for the item names; every item round-trips)", exp) }
+}
+/// args {"enum": "Color"|"Unit", "v": <value as in c07_int>}
+pub fn enum_case(args: &Value) -> Outcome {
+    let v = to_gql(&args["v"]);
+    match args["enum"].as_str().unwrap() {
+        "Color" => enum_check::<Color>(&v, &[("RED", Color::Red), ("GREEN", Color::Green), ("DEEP_BLUE", Color::Blue)]),
+        _ => enum_check::<Unit>(&v, &[("mb", Unit::Millibit), ("MB", Unit::Megabyte), ("kb", Unit::Kb)]),
+    }
+}
+pub fn enum_inputs(_seed: u64) -> impl Iterator<Item = Value> {
+    let mut out = Vec::new();
+    for e in ["Color", "Unit"] {
+        for n in ["RED", "GREEN", "DEEP_BLUE", "BLUE", "Red", "red", "Green", "RE", "REDD", "", " RED", "mb", "MB", "Mb", "mB", "kb", "KB", "Kb", "Millibit", "MILLIBIT"] {
+            out.push(json!({"enum": e, "v": format!("enum:{}", n)}));
+            out.push(json!({"enum": e, "v": n}));
+        }
+        for v in [json!(null), json!(true), json!("int:0"), json!("int:1"), json!(["enum:RED"])] { out.push(json!({"enum": e, "v": v})); }
+    }
+    out.into_iter()
+}
+
+// ---------------------------------------------------------------- bool / String / ID / char
+/// args {"T": "bool"|"String"|"ID"|"char", "v": value}
+pub fn simple(args: &Value) -> Outcome {
+    let v = to_gql(&args["v"]);
+    let t = args["T"].as_str().unwrap();
+    let (got, exp): (Option<String>, Option<String>) = match t {
+        "bool" => (<bool as ScalarType>::parse(v.clone()).ok().map(|b| b.to_string()), if let GqlValue::Boolean(b) = &v { Some(b.to_string()) } else { None }),
+        "String" => (<String as ScalarType>::parse(v.clone()).ok(), if let GqlValue::String(s) = &v { Some(s.clone()) } else { None }),
+        "char" => (<char as ScalarType>::parse(v.clone()).ok().map(|c| c.to_string()), if let GqlValue::String(s) = &v { if s.chars().count() == 1 { Some(s.clone()) } else { None } } else { None }),
+        _ => (<async_graphql::ID as ScalarType>::parse(v.clone()).ok().map(|i| i.0), match &v { GqlValue::String(s) => Some(s.clone()), GqlValue::Number(n) if n.is_i64() => Some(n.to_string()), _ => None }),
+    };
+    let mut holds = got == exp;
+    let mut obs = format!("parse({}) = {:?}", v, got);
+    for b in [true, false] { if <bool as ScalarType>::parse(ScalarType::to_value(&b)).ok() != Some(b) { holds = false; obs += "; bool round trip fails"; } }
+    for s in ["", "a", "\u{1F600}", "a\"b"] {
+        if <String as ScalarType>::parse(ScalarType::to_value(&s.to_string())).ok().as_deref() != Some(s) { holds = false; obs += "; String round trip fails"; }
+        if <async_graphql::ID as ScalarType>::parse(ScalarType::to_value(&async_graphql::ID(s.to_string()))).ok().map(|i| i.0).as_deref() != Some(s) { holds = false; obs += "; ID round trip fails"; }
+    }
+    for c in ['a', '\u{0}', '\u{1F600}', '"'] { if <char as ScalarType>::parse(ScalarType::to_value(&c)).ok() != Some(c) { holds = false; obs += "; char round trip fails"; } }
+    Outcome { holds, observed: obs, expected: format!("{:?}", exp) }
+}
+pub fn simple_inputs(_seed: u64) -> impl Iterator<Item = Value> {
+    let mut out = Vec::new();
+    for t in ["bool", "String", "ID", "char"] {
+        for v in [json!(true), json!(false), json!(null), json!(""), json!("a"), json!("ab"), json!("\u{1F600}"), json!("\u{e9}\u{e9}"), json!("true"), json!("enum:true"), json!("enum:a"),
+                  json!("int:0"), json!("int:1"), json!("int:-5"), json!("int:18446744073709551615"), json!("float:1.5"), json!(["a"]), json!([true])] {
+            out.push(json!({"T": t, "v": v}));
+        }
+    }
+    out.into_iter()
+}
+
+// ---------------------------------------------------------------- floats (bounded stand-in)
+/// args {"T":"f32"|"f64","bits": u64}  parse of a finite f64 number and the round trip of the resulting value
+pub fn float_case(args: &Value) -> Outcome {
+    let bits = args["bits"].as_u64().unwrap();
+    let d = f64::from_bits(bits);
+    if !d.is_finite() {
+        // round trip of a non-finite value (only used as the witness of a known finding; never generated by the search)
+        let tv = ScalarType::to_value(&d);
+        let back = <f64 as ScalarType>::parse(tv.clone()).ok();
+        let same = back.map(|y| y.to_bits() == d.to_bits() || (y.is_nan() && d.is_nan())).unwrap_or(false);
+        return Outcome { holds: same, observed: format!("to_value({}) = {}; parse of that = {:?}", d, tv, back), expected: "parse(to_value(x)) == Ok(x)".into() };
+    }
+    if args["T"] == "f32" {
+        let got = <f32 as ScalarType>::parse(GqlValue::Number(Number::from_f64(d).unwrap()));
+        // domain of a 32-bit Float: finite doubles whose magnitude fits f32 (result = nearest f32)
+        let exp: Option<f32> = if d.abs() <= f32::MAX as f64 { Some(d as f32) } else { None };
+        let mut holds = got.as_ref().ok().copied().map(f32::to_bits) == exp.map(f32::to_bits);
+        let mut obs = format!("f32::parse({:e}) = {:?}", d, got.as_ref().map_err(|_| "Err"));
+        let x = d as f32;
+        if x.is_finite() { let back = <f32 as ScalarType>::parse(ScalarType::to_value(&x)); if back.as_ref().ok().map(|y| y.to_bits()) != Some(x.to_bits()) { holds = false; obs += &format!("; parse(to_value({:e})) = {:?}", x, back.map_err(|_| "Err")); } }
+        Outcome { holds, observed: obs, expected: format!("{:?}", exp) }
+    } else {
+        let got = <f64 as ScalarType>::parse(GqlValue::Number(Number::from_f64(d).unwrap())).ok();
+        let back = <f64 as ScalarType>::parse(ScalarType::to_value(&d)).ok();
+        let ok = |r: &Option<f64>| r.map(|y| y.to_bits()) == Some(d.to_bits());
+        Outcome { holds: ok(&got) && ok(&back), observed: format!("f64::parse({:e}) = {:?}; round trip {:?}", d, got, back), expected: format!("Ok({:e})", d) }
+    }
+}
+pub fn float_inputs(seed: u64, open: &[String]) -> impl Iterator<Item = Value> {
+    let skip_overflow = open.iter().any(|x| x == "C07-f32-overflow-to-inf");
+    let mut out = Vec::new();
+    let vals: Vec<f64> = vec![0.0, -0.0, 1.0, -1.0, 0.1, 1.5, 16777217.0, f32::MAX as f64, f32::MIN as f64, f32::MIN_POSITIVE as f64, 1e-46, 3.4028236e38, 1e39, -1e39, f64::MAX, f64::MIN, f64::MIN_POSITIVE, 5e-324, 1e300];
+    let mut r = Rng(seed);
+    let mut all = vals.clone();
+    for _ in 0..100 { let d = f64::from_bits(r.next()); if d.is_finite() { all.push(d); } }
+    for d in all { for t in ["f32", "f64"] {
+        if t == "f32" && skip_overflow && d.abs() > f32::MAX as f64 { continue; }
+        out.push(json!({"T": t, "bits": d.to_bits()}));
+    } }
+    out.into_iter()
+}
